@@ -32,6 +32,8 @@ Section Top.
     intros cfg Hwf Hg Hp.
     destruct (gen_inv cfg inp e Hg) as (fcp & j & Hj & Ho & Hpats).
     pose proof (rel_of_gen cfg inp fcp j sp Hwf Hj Hp) as HR.
+    pose proof (r_base _ _ _ HR) as HRb. pose proof (r_joiner _ _ _ HR) as Hoj.
+    pose proof (r_lazy _ _ _ HR) as Hol. pose proof (r_transpose _ _ _ HR) as Hot.
     assert (Hun : user_names inp = flat_map opt_list (map pat_name (j_pats j))).
     { rewrite Hpats. apply user_names_pats. }
     eapply gen_output_sync with (cfg := cfg) (j := j); try eassumption; try reflexivity.
@@ -50,6 +52,8 @@ Section Top.
     intros cfg Hwf Hg Hp.
     destruct (gen_inv cfg inp e Hg) as (fcp & j & Hj & Ho & Hpats).
     pose proof (rel_of_gen cfg inp fcp j sp Hwf Hj Hp) as HR.
+    pose proof (r_base _ _ _ HR) as HRb. pose proof (r_joiner _ _ _ HR) as Hoj.
+    pose proof (r_lazy _ _ _ HR) as Hol. pose proof (r_transpose _ _ _ HR) as Hot.
     assert (Hun : user_names inp = flat_map opt_list (map pat_name (j_pats j))).
     { rewrite Hpats. apply user_names_pats. }
     eapply gen_output_sync with (cfg := cfg) (j := j); try eassumption; try reflexivity.
@@ -68,13 +72,16 @@ Section Top.
     intros Ha Hwf Hg Hp.
     destruct (gen_inv cfg inp e Hg) as (fcp & j & Hj & Ho & Hpats).
     pose proof (rel_of_gen cfg inp fcp j sp Hwf Hj Hp) as HR.
+    pose proof (r_base _ _ _ HR) as HRb. pose proof (r_joiner _ _ _ HR) as Hoj.
+    pose proof (r_lazy _ _ _ HR) as Hol. pose proof (r_transpose _ _ _ HR) as Hot.
     assert (Hun : user_names inp = flat_map opt_list (map pat_name (j_pats j))).
     { rewrite Hpats. apply user_names_pats. }
     eapply gen_output_sync with (cfg := cfg) (j := j); try eassumption.
     intros ss se Hgs ρ st HI.
     assert (Hstep : step_hyp (user_names inp) msem dotsem callsem awaitsem cfg j sp).
     { eapply step_sync; eassumption. }
-    destruct (is_try cfg) eqn:Ht.
+    assert (Hc : {is_try cfg = true} + {is_try cfg = false}) by (destruct (is_try cfg); auto).
+    destruct Hc as [Ht|Ht].
     - eapply steps_try with (cfg := cfg); try eassumption; reflexivity.
     - eapply steps_nontry with (cfg := cfg); try eassumption; reflexivity.
   Qed.
@@ -101,13 +108,16 @@ Section Top.
     intros Ha Hwf Hg Hp.
     destruct (gen_inv cfg inp e Hg) as (fcp & j & Hj & Ho & Hpats).
     pose proof (rel_of_gen cfg inp fcp j sp Hwf Hj Hp) as HR.
+    pose proof (r_base _ _ _ HR) as HRb. pose proof (r_joiner _ _ _ HR) as Hoj.
+    pose proof (r_lazy _ _ _ HR) as Hol. pose proof (r_transpose _ _ _ HR) as Hot.
     assert (Hun : user_names inp = flat_map opt_list (map pat_name (j_pats j))).
     { rewrite Hpats. apply user_names_pats. }
     eapply gen_output_async with (cfg := cfg) (j := j); try eassumption.
     intros ss se Hgs ρ st HI.
     assert (Hstep : step_hyp (user_names inp) msem dotsem callsem awaitsem cfg j sp).
     { eapply step_async; eassumption. }
-    destruct (is_try cfg) eqn:Ht.
+    assert (Hc : {is_try cfg = true} + {is_try cfg = false}) by (destruct (is_try cfg); auto).
+    destruct Hc as [Ht|Ht].
     - eapply steps_try_async with (cfg := cfg); try eassumption; reflexivity.
     - eapply steps_nontry with (cfg := cfg); try eassumption; reflexivity.
   Qed.
